@@ -681,13 +681,33 @@ func (w *cWalker) branch(cond ast.Expr, st *cState) []cBranch {
 						}
 						continue
 					}
-					// linear comparison  A < B  => remember the fact on each side
-					if l.v.k == cvLin && r.v.k == cvLin && be.Op == token.LSS {
-						t, f := r.st.clone(), r.st
-						dl := l.v.lin.Sub(r.v.lin)
-						f.lits = append(f.lits, Lit{Atom: dl.String(), Rel: "lin>=0", L: &dl})
-						out = append(out, cBranch{t, true}, cBranch{f, false})
-						continue
+					// linear comparison  A rel B  => remember, on each side, the linear form that is >= 0 there
+					if la, okA := linOf(l.v); okA {
+						if lb, okB := linOf(r.v); okB && (l.v.k == cvLin || r.v.k == cvLin) {
+							var tf, ff *Lin
+							amb, bma := la.Sub(lb), lb.Sub(la)
+							switch be.Op {
+							case token.LSS: // A < B
+								x, y := bma.Sub(linC(1)), amb
+								tf, ff = &x, &y
+							case token.LEQ:
+								x, y := bma, amb.Sub(linC(1))
+								tf, ff = &x, &y
+							case token.GTR:
+								x, y := amb.Sub(linC(1)), bma
+								tf, ff = &x, &y
+							case token.GEQ:
+								x, y := amb, bma.Sub(linC(1))
+								tf, ff = &x, &y
+							}
+							if tf != nil {
+								t, f := r.st.clone(), r.st
+								t.lits = append(t.lits, Lit{Atom: tf.String(), Rel: "lin>=0", L: tf})
+								f.lits = append(f.lits, Lit{Atom: ff.String(), Rel: "lin>=0", L: ff})
+								out = append(out, cBranch{t, true}, cBranch{f, false})
+								continue
+							}
+						}
 					}
 					t, f := r.st.clone(), r.st
 					out = append(out, cBranch{t, true}, cBranch{f, false})
